@@ -1,449 +1,148 @@
-"""Python `ast` -> Lean translator for the integer decision logic of Code Limit.
+"""Source -> Lean translator for the integer decision logic of Code Limit, by SYMBOLIC TRACING.
 
-Emits lean/CodeLimit/Gen/Logic.lean (namespace CL.Gen.Logic): one definition per decision site,
-over `Int`, so that the property theorems are proved *about what the source says now*.
-Only a tiny pure subset is accepted; anything else raises Refuse (a broken tie).
+    logic.py <repo path>        prints lean/CodeLimit/Gen/Logic.lean (namespace CL.Gen.Logic)
+    logic.translate(repo)       the same text (raises logic.Refuse); used by harness/ and tools/regen.py
+
+One Lean definition per decision site (profile buckets, colours, check's counters / exit code /
+quiet condition, findings thresholds and cut-offs, `quality_profile_percentage`, the verdict
+chains of both formats, SummaryTable styles, ten `delta == 0` guards, `TokenRange` / `Scope`
+comparisons, the index tests of `_get_nearest_block` / `_scope_tokens`, `Balanced.accept`, the
+pre-emption guard of `find_all`, `scan_file`'s end location, Python's indentation tests).  The
+property theorems are proved ABOUT these definitions, so a semantic change of the code changes
+the Lean term and breaks a proof, while a behaviour-preserving refactoring yields an equivalent
+term (usually the identical one) and the proofs, which go through automation, still compile.
+
+How it works (symtrace.py = engine, sites.py = the sites)
+----------------------------------------------------------
+The REAL functions of the repository given on the command line are imported in a fresh
+subprocess (the repository is put first on `sys.path`; the run is refused if `codelimit` resolves
+to any other tree) and CALLED with `SymInt` arguments: objects that wrap a Lean term over named
+`Int` variables.  Comparisons give a `SymBool`; whenever Python needs its truth value the path
+explorer picks a branch, and the function is re-run once per path (depth first, at most 4096
+paths).  Each path ends in a concrete outcome that a per-site classifier maps to the finite class
+the definition's type needs (bucket index, colour name, verdict code + the expression shown,
+Bool, tuple of terms); the (path condition, class) leaves become a Lean `if c then .. else ..`
+tree (`Prop`-valued sites: the equivalent proposition).  Nothing looks at the shape of the source.
+
+What is trusted about the tracer (all of it is small and in symtrace.py)
+------------------------------------------------------------------------
+* Python semantics mirrored by `SymInt` (a Python `int` is read as a Lean `Int`, both unbounded):
+  `+ - *`, unary `-`/`+`, `abs` (a decision), `< <= > >= == !=` against ints and SymInts (reflected
+  operators included, `bool` operands count as 0/1), truthiness = `!= 0`, `math.ceil/floor/trunc`
+  and `round(x)` of an int are the int itself, `sum`, `min`, `max`, `sorted`, `bisect` work through
+  `+` and `<`.  Comparison with a non-number (`None`, `str`) is `NotImplemented`, i.e. Python's own
+  fallback (`==` False, `<` TypeError).  Constant folding uses ring identities only
+  (`0 + x`, `x - 0`, `1 * x`, `0 * x`, literal op literal).
+* The one float idiom `ceil((x / t) * 100 - 0.001)` (also `100 * (x / t)`) is read EXACTLY as
+  `CL.pct x t` (Model/Pct.lean); IEEE evaluation is tied by C19's correspondence run, not here.
+* `__format__` / `str` / `repr` of a SymInt give a placeholder `⟦k⟧`; classifiers recover which
+  expression a message shows from it (format specs such as `:n`, `:+n`, `:3` are recorded, not
+  interpreted).
+* `SymBool.__bool__` is the only source of branching; `and` / `or` / `not` / chained comparisons /
+  conditional expressions / `if` / `while` / comprehension filters all go through it because
+  CPython evaluates them through `__bool__`.  Decisions are cached per path on a canonical form
+  (`a <= b` is `not b < a`, `a > b` is `b < a`, `a != b` is `not a == b`: Int is a linear order)
+  and decided without branching when integer BOUNDS against literals collected on the path imply
+  them (`v <= 15` known, `v <= 30` asked).  This pruning only removes unreachable branches; set
+  TRACER_NO_PRUNE=1 to emit them instead.  `if c then X else X` is emitted as `X`.
+* Self-check on every run (symtrace.selfcheck): every callable is explored a second time WITHOUT
+  bound pruning (paths on which it raises count as don't-care); on a grid of sample points around
+  every literal (a) exactly one explored path applies, (b) the emitted tree gives that path's leaf,
+  (c) the pruned and the unpruned tree agree.  A disagreement is a refusal.
+* Don't-care leaves: where a site observes nothing (the number in a message that is not printed,
+  a block that contains the header for `nearest_candidate`) the leaf merges with its sibling; the
+  conditions are spelled out in sites.py next to each site.
+* `len` and `range` are rebound in the globals of the `codelimit.*` modules for three sites only
+  (`print_findings` of both formats: a `SymList` of symbolic length that records the prefix slice
+  and the iteration; `_scope_tokens`: `range(a, b)` with symbolic bounds yields two arbitrary
+  successive indices `i`, `j`).  The code itself is not modified or recompiled.
+* Stubs are duck-typed stand-ins for DATA only (a report whose `quality_profile()` returns four
+  SymInts, a `CheckResult` with symbolic counters, `scan_file` / `lex` / `_read_file` replaced as in
+  harness/props/C02.py, predicates whose `accept` returns a symbolic truth value); output is
+  observed by recording `Console.print`, `rich.print` and stdout.
+
+What is refused (always with file:line of the innermost frame inside the repository)
+----------------------------------------------------------------------------------
+floats other than the one idiom; `// % ** << >> & | ^ ~`, `int()`, `float()`, hashing (dict key /
+set element), `__index__` (list index, slice bound, `range`, repetition `"x" * n`) of a symbolic
+integer; an exception raised by the traced code on some path; non-deterministic re-execution;
+more than 4096 paths; a failed self-check; an outcome the classifier does not know (e.g. an unknown verdict message,
+a delta text that is neither `<n>` nor `<n> (<+d>)`); a definition that would depend on a
+variable that is not a parameter of the site.  NOT detected: `isinstance(x, int)` / `type(x)`
+tests on a symbolic value take the non-int branch silently (none exist in the translated sites;
+the generated definitions are also run against the real functions by the correspondence checks).
 """
-import ast
 import os
+import subprocess
 import sys
-import warnings
 
-warnings.simplefilter("ignore", SyntaxWarning)
+HERE = os.path.dirname(os.path.abspath(__file__))
+if HERE not in sys.path:
+    sys.path.insert(0, HERE)
 
-
-class Refuse(Exception):
-    pass
-
-
-CMP = {ast.Lt: "<", ast.LtE: "≤", ast.Gt: ">", ast.GtE: "≥", ast.Eq: "=", ast.NotEq: "≠"}
+from symtrace import Refuse  # noqa: E402  (re-exported: harness code catches logic.Refuse)
 
 
-def where(node, path):
-    return "%s:%s" % (path, getattr(node, "lineno", "?"))
-
-
-class Tr:
-    """expression translator with an environment: python source text -> lean term"""
-
-    def __init__(self, env, path):
-        self.env = dict(env)
-        self.path = path
-
-    def int(self, e):
-        key = ast.unparse(e)
-        if key in self.env:
-            return self.env[key]
-        if isinstance(e, ast.Constant) and isinstance(e.value, int) and not isinstance(e.value, bool):
-            return "(%d : Int)" % e.value
-        if isinstance(e, ast.UnaryOp) and isinstance(e.op, ast.USub):
-            return "(-%s)" % self.int(e.operand)
-        if isinstance(e, ast.BinOp) and type(e.op) in (ast.Add, ast.Sub, ast.Mult):
-            o = {ast.Add: "+", ast.Sub: "-", ast.Mult: "*"}[type(e.op)]
-            return "(%s %s %s)" % (self.int(e.left), o, self.int(e.right))
-        if isinstance(e, ast.IfExp):
-            return "(if %s then %s else %s)" % (self.prop(e.test), self.int(e.body), self.int(e.orelse))
-        if isinstance(e, ast.Call) and isinstance(e.func, ast.Name) and e.func.id == "min" and len(e.args) == 2 and not e.keywords:
-            return "(min %s %s)" % (self.int(e.args[0]), self.int(e.args[1]))
-        if isinstance(e, ast.Call) and isinstance(e.func, ast.Name) and e.func.id == "max" and len(e.args) == 2 and not e.keywords:
-            return "(max %s %s)" % (self.int(e.args[0]), self.int(e.args[1]))
-        m = self.pct(e)
-        if m:
-            return m
-        raise Refuse("unsupported integer expression `%s` at %s" % (key, where(e, self.path)))
-
-    def pct(self, e):
-        """ceil((X / T) * 100 - 0.001)  ->  CL.pct X T   (exact rational reading; see C19)"""
-        if not (isinstance(e, ast.Call) and isinstance(e.func, ast.Name) and e.func.id == "ceil" and len(e.args) == 1):
-            return None
-        a = e.args[0]
-        if not (isinstance(a, ast.BinOp) and isinstance(a.op, ast.Sub) and isinstance(a.right, ast.Constant) and a.right.value == 0.001):
-            return None
-        b = a.left
-        if not (isinstance(b, ast.BinOp) and isinstance(b.op, ast.Mult) and isinstance(b.right, ast.Constant) and b.right.value == 100 and not isinstance(b.right.value, bool)):
-            return None
-        c = b.left
-        if not (isinstance(c, ast.BinOp) and isinstance(c.op, ast.Div)):
-            return None
-        return "(CL.pct %s %s)" % (self.int(c.left), self.int(c.right))
-
-    def prop(self, e):
-        key = ast.unparse(e)
-        if key in self.env and self.env[key].startswith("(P:"):
-            return self.env[key][3:-1]
-        if isinstance(e, ast.Compare):
-            parts = []
-            left = e.left
-            for op, right in zip(e.ops, e.comparators):
-                if type(op) not in CMP:
-                    raise Refuse("unsupported comparison `%s` at %s" % (key, where(e, self.path)))
-                parts.append("(%s %s %s)" % (self.int(left), CMP[type(op)], self.int(right)))
-                left = right
-            return "(" + " ∧ ".join(parts) + ")"
-        if isinstance(e, ast.BoolOp):
-            j = " ∧ " if isinstance(e.op, ast.And) else " ∨ "
-            return "(" + j.join(self.prop(v) for v in e.values) + ")"
-        if isinstance(e, ast.UnaryOp) and isinstance(e.op, ast.Not):
-            return "(¬ %s)" % self.prop(e.operand)
-        if isinstance(e, ast.Constant) and isinstance(e.value, bool):
-            return "True" if e.value else "False"
-        raise Refuse("unsupported condition `%s` at %s" % (key, where(e, self.path)))
-
-
-def chain(stmts, tr, leaf):
-    """an if/elif/else chain whose leaves are classified by leaf(stmts) -> lean term"""
-    if len(stmts) == 1 and isinstance(stmts[0], ast.If):
-        i = stmts[0]
-        if not i.orelse:
-            raise Refuse("if without else at %s" % where(i, tr.path))
-        return "if %s then %s else %s" % (tr.prop(i.test), chain(i.body, tr, leaf), chain(i.orelse, tr, leaf))
-    return leaf(stmts)
-
-
-def block(stmts, tr, live, result):
-    """straight-line integer code with if/else and (aug)assignments to local variables ->
-    nested lets ending in `result` (a lean term over the variable names)"""
-    if not stmts:
-        return result
-    s, rest = stmts[0], stmts[1:]
-    if isinstance(s, ast.Assign) and len(s.targets) == 1 and isinstance(s.targets[0], ast.Name):
-        v = s.targets[0].id
-        rhs = tr.int(s.value)
-        tr.env[v] = v
-        live.add(v)
-        return "let %s : Int := %s;\n  %s" % (v, rhs, block(rest, tr, live, result))
-    if isinstance(s, ast.AugAssign) and isinstance(s.target, ast.Name) and type(s.op) in (ast.Add, ast.Sub):
-        v = s.target.id
-        if v not in live:
-            raise Refuse("augmented assignment to unknown variable at %s" % where(s, tr.path))
-        o = "+" if isinstance(s.op, ast.Add) else "-"
-        return "let %s : Int := %s %s %s;\n  %s" % (v, v, o, tr.int(s.value), block(rest, tr, live, result))
-    if isinstance(s, ast.If):
-        assigned = sorted(assigned_vars(s))
-        for v in assigned:
-            if v not in live:
-                raise Refuse("variable %s first assigned inside an if at %s" % (v, where(s, tr.path)))
-        tup = "(" + ", ".join(assigned) + ")" if len(assigned) > 1 else assigned[0]
-        cond = tr.prop(s.test)
-        b1 = block(s.body, tr, set(live), tup)
-        b2 = block(s.orelse, tr, set(live), tup) if s.orelse else tup
-        return "let %s := (if %s then (%s) else (%s));\n  %s" % (tup, cond, b1, b2, block(rest, tr, live, result))
-    raise Refuse("unsupported statement `%s` at %s" % (ast.unparse(s).splitlines()[0], where(s, tr.path)))
-
-
-def assigned_vars(node):
-    out = set()
-    for n in ast.walk(node):
-        if isinstance(n, ast.Assign):
-            for t in n.targets:
-                if isinstance(t, ast.Name):
-                    out.add(t.id)
-                else:
-                    raise Refuse("unsupported assignment target")
-        elif isinstance(n, ast.AugAssign):
-            if isinstance(n.target, ast.Name):
-                out.add(n.target.id)
-            else:
-                raise Refuse("unsupported assignment target")
-    return out
-
-
-class Source:
-    def __init__(self, repo, rel):
-        self.rel = rel
-        self.path = os.path.join(repo, rel)
-        self.tree = ast.parse(open(self.path).read())
-
-    def func(self, name, cls=None):
-        scope = self.tree
-        if cls:
-            for n in ast.walk(self.tree):
-                if isinstance(n, ast.ClassDef) and n.name == cls:
-                    scope = n
-                    break
-            else:
-                raise Refuse("%s: class %s not found" % (self.rel, cls))
-        for n in ast.walk(scope):
-            if isinstance(n, ast.FunctionDef) and n.name == name:
-                return n
-        raise Refuse("%s: function %s not found" % (self.rel, name))
-
-
-def lean_string(s):
-    return '"' + s.replace("\\", "\\\\").replace('"', '\\"') + '"'
-
-
-def color_leaf_return(stmts, path):
-    (s,) = stmts
-    if isinstance(s, ast.Return) and isinstance(s.value, ast.Call) and getattr(s.value.func, "id", None) == "Style":
-        kw = {k.arg: k.value for k in s.value.keywords}
-        if set(kw) == {"color"} and isinstance(kw["color"], ast.Constant):
-            return lean_string(kw["color"].value)
-    raise Refuse("expected `return Style(color=...)` at %s" % where(s, path))
-
-
-def str_leaf_return(stmts, path):
-    (s,) = stmts
-    if isinstance(s, ast.Return) and isinstance(s.value, ast.Constant) and isinstance(s.value.value, str):
-        return lean_string(s.value.value)
-    raise Refuse("expected `return <string>` at %s" % where(s, path))
-
-
-def bucket_leaf(expect_value):
-    def leaf(stmts, path=None):
-        (s,) = stmts
-        if (isinstance(s, ast.AugAssign) and isinstance(s.op, ast.Add) and isinstance(s.target, ast.Subscript)
-                and isinstance(s.target.slice, ast.Constant) and ast.unparse(s.target.value) == "result"
-                and ast.unparse(s.value) == expect_value):
-            return "(%d : Nat)" % s.target.slice.value
-        raise Refuse("expected `result[i] += %s`, got `%s`" % (expect_value, ast.unparse(s)))
-    return leaf
+def _child(repo, stats_to=None):
+    """runs in a fresh interpreter: import the tree under `repo` and trace it"""
+    import warnings
+    warnings.simplefilter("ignore")
+    repo = os.path.realpath(repo)
+    sys.path[:] = [repo] + [p for p in sys.path if os.path.realpath(p or ".") != repo]
+    for name in [m for m in sys.modules if m == "codelimit" or m.startswith("codelimit.")]:
+        del sys.modules[name]
+    import symtrace
+    symtrace.set_root(repo)
+    try:
+        import codelimit
+        origin = os.path.realpath(os.path.dirname(codelimit.__file__))
+        if origin != os.path.join(repo, "codelimit"):
+            raise Refuse("`import codelimit` resolves to %s, not to the tree under %s" % (origin, repo))
+        import sites
+        stats = []
+        text = sites.translate_here(stats)
+    except Refuse as e:
+        print("REFUSED:", e)
+        return 1
+    except Exception as e:  # noqa
+        import traceback
+        tb = sys.exc_info()[2]
+        print("REFUSED: %s: %s at %s (while importing or tracing)" % (type(e).__name__, e, symtrace.where_tb(tb)))
+        if os.environ.get("TRACER_DEBUG"):
+            traceback.print_exc()
+        return 1
+    sys.stdout.write(text)
+    if stats_to:
+        with open(stats_to, "w") as f:
+            for name, paths, leaves in stats:
+                f.write("%s %d %d\n" % (name, paths, leaves))
+    return 0
 
 
 def translate(repo):
-    defs = []
-
-    def emit(sig, body, doc):
-        kw = "abbrev" if sig.rstrip().endswith(": Prop") else "def"
-        defs.append("/-- %s -/\n%s %s :=\n  %s\n" % (doc, kw, sig, body))
-
-    # ---- utils.py ------------------------------------------------------------------
-    u = Source(repo, "codelimit/common/utils.py")
-    for fn, inc in (("make_profile", "m.value"), ("make_count_profile", "1")):
-        f = u.func(fn)
-        loops = [s for s in f.body if isinstance(s, ast.For)]
-        if len(loops) != 1 or ast.unparse(loops[0].iter) != "measurements" or ast.unparse(loops[0].target) != "m":
-            raise Refuse("%s: unexpected loop" % fn)
-        init = f.body[0]
-        if ast.unparse(init) != "result = [0, 0, 0, 0]" or ast.unparse(f.body[-1]) != "return result":
-            raise Refuse("%s: unexpected accumulator" % fn)
-        tr = Tr({"m.value": "v"}, u.rel)
-        emit("%s_bucket (v : Int) : Nat" % fn, chain(loops[0].body, tr, bucket_leaf(inc)),
-             "`utils.%s`: the index of `result` that a measurement of length `v` is added to (`+= %s`)" % (fn, inc))
-    f = u.func("merge_profiles")
-    if ast.unparse(f.body[0]) != "return [rc1[0] + rc2[0], rc1[1] + rc2[1], rc1[2] + rc2[2], rc1[3] + rc2[3]]":
-        raise Refuse("merge_profiles: unexpected body")
-    f = u.func("get_style_for_measurement")
-    emit("style_color (value : Int) : String", chain(f.body, Tr({"value": "value"}, u.rel), lambda s: color_leaf_return(s, u.rel)),
-         "`utils.get_style_for_measurement`")
-    f = u.func("get_emoji_for_measurement")
-    emit("emoji (value : Int) : String", chain(f.body, Tr({"value": "value"}, u.rel), lambda s: str_leaf_return(s, u.rel)),
-         "`utils.get_emoji_for_measurement`")
-    f = u.func("format_unit")
-    first = f.body[0]
-
-    def color_assign(stmts):
-        (s,) = stmts
-        if isinstance(s, ast.Assign) and ast.unparse(s.targets[0]) == "color" and isinstance(s.value, ast.Constant):
-            return lean_string(s.value.value)
-        raise Refuse("format_unit: expected `color = ...`")
-    emit("format_unit_color (length : Int) : String", chain([first], Tr({"length": "length"}, u.rel), color_assign),
-         "`utils.format_unit`: colour of the separator")
-    # ---- CheckResult.py ------------------------------------------------------------
-    c = Source(repo, "codelimit/common/CheckResult.py")
-    f = c.func("add", "CheckResult")
-    seen = {}
-    for s in f.body:
-        if isinstance(s, ast.AugAssign) and isinstance(s.target, ast.Attribute) and isinstance(s.op, ast.Add):
-            v = s.value
-            ok = (isinstance(v, ast.Call) and getattr(v.func, "id", None) == "len" and len(v.args) == 1
-                  and isinstance(v.args[0], ast.ListComp) and len(v.args[0].generators) == 1)
-            if not ok:
-                raise Refuse("CheckResult.add: unexpected counter update at %s" % where(s, c.rel))
-            g = v.args[0].generators[0]
-            if ast.unparse(g.iter) != "measurements" or len(g.ifs) != 1 or ast.unparse(v.args[0].elt) != ast.unparse(g.target):
-                raise Refuse("CheckResult.add: unexpected comprehension at %s" % where(s, c.rel))
-            seen[s.target.attr] = Tr({ast.unparse(g.target) + ".value": "v"}, c.rel).prop(g.ifs[0])
-    if set(seen) != {"hard_to_maintain", "unmaintainable"}:
-        raise Refuse("CheckResult.add: counters %s" % sorted(seen))
-    emit("check_counts_hard (v : Int) : Prop", seen["hard_to_maintain"], "`CheckResult.add`: a measurement of length `v` increments `hard_to_maintain`")
-    emit("check_counts_unmaintainable (v : Int) : Prop", seen["unmaintainable"], "`CheckResult.add`: ... increments `unmaintainable`")
-    f = c.func("report", "CheckResult")
-    ifs = [s for s in f.body if isinstance(s, ast.If)]
-    if len(ifs) != 1:
-        raise Refuse("CheckResult.report: unexpected shape")
-    tr = Tr({"self.hard_to_maintain": "hard", "self.unmaintainable": "unm"}, c.rel)
-    emit("check_says_refactoring (hard unm : Int) : Prop", tr.prop(ifs[0].test), "`CheckResult.report`: the summary line says functions need refactoring")
-    txt = ast.unparse(ifs[0].body[0])
-    if "{self.hard_to_maintain + self.unmaintainable} functions need" not in txt.replace("' f'", "").replace('" f"', ""):
-        raise Refuse("CheckResult.report: unexpected summary count expression")
-    emit("check_summary_count (hard unm : Int) : Int", "hard + unm", "`CheckResult.report`: the number shown in the summary line")
-    # ---- commands/check.py ---------------------------------------------------------
-    k = Source(repo, "codelimit/commands/check.py")
-    f = k.func("check_command")
-    exit_assign = [s for s in f.body if isinstance(s, ast.Assign) and ast.unparse(s.targets[0]) == "exit_code"]
-    if len(exit_assign) != 1:
-        raise Refuse("check_command: exit_code assignment not found")
-    tr = Tr({"check_result.unmaintainable": "unm", "check_result.hard_to_maintain": "hard", "quiet": "(P:quiet = true)"}, k.rel)
-    emit("check_exit_code (unm : Int) : Int", tr.int(exit_assign[0].value), "`check_command`: process exit status")
-    last_if = [s for s in f.body if isinstance(s, ast.If)]
-    if len(last_if) != 1 or ast.unparse(last_if[0].body[0]) != "check_result.report()" or last_if[0].orelse:
-        raise Refuse("check_command: report condition not found")
-    emit("check_prints (quiet : Bool) (hard unm : Int) : Prop", tr.prop(last_if[0].test), "`check_command`: anything is printed")
-    if ast.unparse(f.body[-1]) != "raise typer.Exit(code=exit_code)":
-        raise Refuse("check_command: does not end by raising typer.Exit(code=exit_code)")
-    f = k.func("check_file")
-    risks = [n for n in ast.walk(f) if isinstance(n, ast.Assign) and ast.unparse(n.targets[0]) == "risks"]
-    if len(risks) != 1:
-        raise Refuse("check_file: risks not found")
-    call = risks[0].value
-    ok = (isinstance(call, ast.Call) and getattr(call.func, "id", None) == "sorted" and isinstance(call.args[0], ast.ListComp)
-          and {kw.arg: ast.unparse(kw.value) for kw in call.keywords} == {"key": "lambda measurement: measurement.value", "reverse": "True"})
-    if not ok:
-        raise Refuse("check_file: risks is not sorted([...], key=value, reverse=True)")
-    g = call.args[0].generators[0]
-    if ast.unparse(g.iter) != "measurements" or len(g.ifs) != 1:
-        raise Refuse("check_file: unexpected comprehension")
-    emit("check_lists (v : Int) : Prop", Tr({ast.unparse(g.target) + ".value": "v"}, k.rel).prop(g.ifs[0]), "`check_file`: a measurement of length `v` is listed as a risk")
-    # ---- Report.py -----------------------------------------------------------------
-    r = Source(repo, "codelimit/common/report/Report.py")
-    f = r.func("all_report_units_sorted_by_length_asc", "Report")
-    conds = [n for n in ast.walk(f) if isinstance(n, ast.If)]
-    if len(conds) != 1:
-        raise Refuse("all_report_units_sorted_by_length_asc: unexpected shape")
-    emit("units_keeps (v threshold : Int) : Prop", Tr({"m.value": "v", "threshold": "threshold"}, r.rel).prop(conds[0].test),
-         "`Report.all_report_units_sorted_by_length_asc(threshold)`: a measurement of length `v` is kept")
-    srt = [n for n in ast.walk(f) if isinstance(n, ast.Call) and getattr(n.func, "id", None) == "sorted"]
-    if len(srt) != 1 or {kw.arg: ast.unparse(kw.value) for kw in srt[0].keywords} != {"key": "lambda unit: unit.measurement.value", "reverse": "True"}:
-        raise Refuse("all_report_units_sorted_by_length_asc: not sorted by value descending")
-    f = r.func("quality_profile_percentage", "Report")
-    body = list(f.body)
-    if ast.unparse(body[0]) != "profile = self.quality_profile()" or ast.unparse(body[1]) != "total = sum(profile)":
-        raise Refuse("quality_profile_percentage: unexpected prologue")
-    if ast.unparse(body[-1]) != "return (easy, verbose, hard_to_maintain, unmaintainable)":
-        raise Refuse("quality_profile_percentage: unexpected return `%s`" % ast.unparse(body[-1]))
-    tr = Tr({"profile[0]": "p0", "profile[1]": "p1", "profile[2]": "p2", "profile[3]": "p3", "total": "(p0 + p1 + p2 + p3)"}, r.rel)
-    emit("quality_profile_percentage (p0 p1 p2 p3 : Int) : Int × Int × Int × Int",
-         block(body[2:-1], tr, set(), "(easy, verbose, hard_to_maintain, unmaintainable)"),
-         "`Report.quality_profile_percentage` with `ceil(x / total * 100 - 0.001)` read exactly (`CL.pct`)")
-    # ---- verdicts ------------------------------------------------------------------
-    for rel, name in (("codelimit/common/report/format_text.py", "text"), ("codelimit/common/report/format_markdown.py", "markdown")):
-        src = Source(repo, rel)
-        f = src.func("print_summary")
-        ifs = [s for s in f.body if isinstance(s, ast.If)]
-        if len(ifs) != 1:
-            raise Refuse("%s.print_summary: unexpected shape" % rel)
-
-        def verdict_leaf(stmts, rel=rel):
-            txt = " ".join(ast.unparse(s) for s in stmts)
-            if "no refactoring necessary" in txt:
-                shown = "easy + verbose" if "{easy + verbose}%" in txt else None
-                code = 2
-            elif "refactoring necessary" in txt and "stop_sign" in txt:
-                shown = "unmaintainable" if "{unmaintainable}%" in txt else None
-                code = 0
-            elif "refactoring necessary" in txt and "warning" in txt:
-                shown = "hard_to_maintain" if "{hard_to_maintain}%" in txt else None
-                code = 1
-            else:
-                raise Refuse("%s.print_summary: unknown verdict message" % rel)
-            if shown is None:
-                raise Refuse("%s.print_summary: verdict message shows an unexpected number" % rel)
-            return "((%d : Nat), %s)" % (code, shown)
-        tr = Tr({"easy": "easy", "verbose": "verbose", "hard_to_maintain": "hard_to_maintain", "unmaintainable": "unmaintainable"}, rel)
-        emit("verdict_%s (easy verbose hard_to_maintain unmaintainable : Int) : Nat × Int" % name, chain(ifs, tr, verdict_leaf),
-             "`%s.print_summary`: (0 = refactoring necessary because of unmaintainable code, 1 = ... hard-to-maintain code, 2 = no refactoring necessary; the percentage shown)" % name)
-        f = src.func("print_findings")
-        thr = [n for n in ast.walk(f) if isinstance(n, ast.Call) and ast.unparse(n.func) == "report.all_report_units_sorted_by_length_asc"]
-        if len(thr) != 1 or len(thr[0].args) != 1:
-            raise Refuse("%s.print_findings: threshold call not found" % rel)
-        emit("findings_threshold_%s : Int" % name, Tr({}, rel).int(thr[0].args[0]), "`%s.print_findings`: threshold passed to `all_report_units_sorted_by_length_asc`" % name)
-        ifs = [s for s in f.body if isinstance(s, ast.If) and "total_findings" in ast.unparse(s.test)]
-        if len(ifs) != 2 or ast.unparse(ifs[0].test) != ast.unparse(ifs[1].test):
-            raise Refuse("%s.print_findings: truncation conditions" % rel)
-        tr = Tr({"total_findings": "total", "full": "(P:full = true)"}, rel)
-        emit("findings_truncates_%s (full : Bool) (total : Int) : Prop" % name, tr.prop(ifs[0].test), "`%s.print_findings`: the list is cut" % name)
-        if ast.unparse(ifs[0].body[0]) != "functions = functions[:10]":
-            raise Refuse("%s.print_findings: unexpected cut `%s`" % (rel, ast.unparse(ifs[0].body[0])))
-        more = [n for n in ast.walk(ifs[1]) if isinstance(n, ast.FormattedValue)]
-        if len(more) != 1:
-            raise Refuse("%s.print_findings: omitted-rows message" % rel)
-        emit("findings_kept_%s : Nat" % name, "10", "`%s.print_findings`: rows kept when cut (`functions[:10]`)" % name)
-        emit("findings_omitted_%s (total : Int) : Int" % name, tr.int(more[0].value), "`%s.print_findings`: the number of omitted rows shown" % name)
-    md = Source(repo, "codelimit/common/report/format_markdown.py")
-    for fn in ("_print_findings_without_repository", "_print_findings_with_repository"):
-        f = md.func(fn)
-        exps = [n for n in ast.walk(f) if isinstance(n, ast.IfExp)]
-        if len(exps) != 1 or not (isinstance(exps[0].body, ast.Constant) and exps[0].body.value == "❌" and exps[0].orelse.value == "⚠"):
-            raise Refuse("%s: symbol choice not found" % fn)
-        emit("md_cross%s (v : Int) : Prop" % fn.replace("_print_findings", ""), Tr({"unit.measurement.value": "v"}, md.rel).prop(exps[0].test),
-             "`format_markdown.%s`: the cross (rather than the warning sign) is shown" % fn)
-    st = Source(repo, "codelimit/common/SummaryTable.py")
-    f = st.func("__init__", "SummaryTable")
-    styles = {}
-    for s in f.body:
-        if isinstance(s, ast.If) and len(s.body) == 1 and isinstance(s.body[0], ast.Assign):
-            tgt = ast.unparse(s.body[0].targets[0])
-            styles[tgt] = Tr({"easy": "easy", "verbose": "verbose", "hard_to_maintain": "hard_to_maintain", "unmaintainable": "unmaintainable"}, st.rel).prop(s.test)
-    want = {"unmaintainable_text.style", "hard_to_maintain_text.style", "easy_verbose_text.style"}
-    if set(styles) != want:
-        raise Refuse("SummaryTable: style conditions %s" % sorted(styles))
-    emit("summary_red (unmaintainable : Int) : Prop", styles["unmaintainable_text.style"], "`SummaryTable`: unmaintainable cell is red")
-    emit("summary_orange (hard_to_maintain : Int) : Prop", styles["hard_to_maintain_text.style"], "`SummaryTable`: hard-to-maintain cell is orange")
-    emit("summary_green (hard_to_maintain unmaintainable : Int) : Prop", styles["easy_verbose_text.style"], "`SummaryTable`: easy/verbose cell is green")
-    # ---- deltas --------------------------------------------------------------------
-    for rel, cls, methods in (("codelimit/common/LanguageTotalsDelta.py", "LanguageTotalsDelta", ["files", "functions", "loc", "hard_to_maintain", "unmaintainable"]),
-                              ("codelimit/common/ScanTotalsDelta.py", "ScanTotalsDelta", ["total_files", "total_functions", "total_loc", "total_hard_to_maintain", "total_unmaintainable"])):
-        src = Source(repo, rel)
-        for mname in methods:
-            f = src.func(mname, cls)
-            exps = [n for n in ast.walk(f) if isinstance(n, ast.IfExp) and isinstance(n.body, ast.JoinedStr)]
-            if not exps:
-                raise Refuse("%s.%s: no conditional format" % (cls, mname))
-            for e in exps:
-                plain, annotated = ast.unparse(e.body), ast.unparse(e.orelse)
-                if "delta" in plain or "({delta:+n})" not in annotated:
-                    raise Refuse("%s.%s: unexpected formats" % (cls, mname))
-            conds = {Tr({"delta": "delta"}, rel).prop(e.test) for e in exps}
-            if len(conds) != 1:
-                raise Refuse("%s.%s: differing delta tests" % (cls, mname))
-            emit("%s_%s_plain (delta : Int) : Prop" % (cls, mname), conds.pop(), "`%s.%s`: the figure is shown WITHOUT annotation" % (cls, mname))
-    # ---- comparison primitives of the scope pipeline --------------------------------
-    trg = Source(repo, "codelimit/common/TokenRange.py")
-    tr = Tr({"self.start": "s", "self.end": "e", "other.start": "os", "other.end": "oe"}, trg.rel)
-    f = trg.func("lt", "TokenRange")
-    emit("range_lt (s e os oe : Int) : Prop", tr.prop(f.body[0].value), "`TokenRange.lt`")
-    f = trg.func("contains", "TokenRange")
-    emit("range_contains (s e os oe : Int) : Prop", tr.prop(f.body[0].value), "`TokenRange.contains`")
-    f = trg.func("overlaps", "TokenRange")
-    tr2 = Tr(tr.env, trg.rel)
-    a = Tr(tr.env, trg.rel).prop(f.body[0].value)
-    b = Tr(tr.env, trg.rel).prop(f.body[1].value)
-    if ast.unparse(f.body[2]) != "return start_overlap or end_overlap":
-        raise Refuse("TokenRange.overlaps: unexpected return")
-    emit("range_overlaps (s e os oe : Int) : Prop", "(%s ∨ %s)" % (a, b), "`TokenRange.overlaps`")
-    sc = Source(repo, "codelimit/common/scope/Scope.py")
-    f = sc.func("contains", "Scope")
-    tr = Tr({"self.header.token_range.start": "hs", "self.block.end": "be", "other.header.token_range.start": "ohs", "other.block.end": "obe"}, sc.rel)
-    emit("scope_contains (hs be ohs obe : Int) : Prop", tr.prop(f.body[0].value), "`Scope.contains`")
-    su = Source(repo, "codelimit/common/scope/scope_utils.py")
-    f = su.func("_get_nearest_block")
-    loop = [s for s in f.body if isinstance(s, ast.For)][0]
-    i0 = loop.body[0]
-    if not (isinstance(i0, ast.If) and ast.unparse(i0.test) == "block.contains(header)" and isinstance(i0.orelse[0], ast.If)):
-        raise Refuse("_get_nearest_block: unexpected shape")
-    i1 = i0.orelse[0]
-    tr = Tr({"block.start": "bs", "block.end": "be", "header.start": "hs", "header.end": "he", "block.lt(header)": "(P:bs < hs)"}, su.rel)
-    emit("nearest_candidate (bs be hs he : Int) : Prop", tr.prop(i1.test), "`_get_nearest_block`: a block that does not contain the header becomes the candidate")
-    f = su.func("_scope_tokens")
-    loop = [s for s in f.body if isinstance(s, ast.For) and ast.unparse(s.target) == "index"][0]
-    w = loop.body[0]
-    if not isinstance(w, ast.While):
-        raise Refuse("_scope_tokens: unexpected shape")
-    tr = Tr({"index": "i", "children_token_ranges[0].end": "ce", "children_token_ranges[0].start": "cs",
-             "len(children_token_ranges) > 0": "(P:True)", "len(children_token_ranges) == 0": "(P:False)"}, su.rel)
-    emit("scope_tokens_pops (i ce : Int) : Prop", tr.prop(w.test), "`_scope_tokens`: the first remaining child range is dropped at index `i`")
-    emit("scope_tokens_keeps (i cs : Int) : Prop", tr.prop(loop.body[1].test), "`_scope_tokens`: the token at index `i` is kept, given a remaining child range starting at `cs`")
-    out = ["import CodeLimit.Model.Pct", "set_option linter.unusedVariables false",
-           "/-! GENERATED by translator/logic.py from the Python source in /repo - do not edit.",
-           "Integer decision logic of Code Limit, one definition per decision site. -/",
-           "namespace CL.Gen.Logic", ""] + defs + ["end CL.Gen.Logic"]
-    return "\n".join(out) + "\n"
+    """the Lean text for the tree under `repo` (always traced in a fresh subprocess so that the
+    caller's own `codelimit` import, whichever tree it is from, plays no role)"""
+    env = dict(os.environ)
+    env.pop("PYTHONPATH", None)
+    env["PYTHONIOENCODING"] = "utf-8"
+    env["PYTHONHASHSEED"] = "0"
+    p = subprocess.run([sys.executable, os.path.abspath(__file__), "--child", repo], capture_output=True, env=env,
+                       cwd=HERE, timeout=600)
+    out = p.stdout.decode("utf-8", "replace")
+    if p.returncode == 0 and out.startswith("import "):
+        return out
+    for line in out.splitlines():
+        if line.startswith("REFUSED:"):
+            raise Refuse(line[len("REFUSED:"):].strip())
+    raise Refuse("tracer subprocess failed (exit %d): %s" % (p.returncode, (out + p.stderr.decode("utf-8", "replace")).strip()[-2000:]))
 
 
 if __name__ == "__main__":
+    args = sys.argv[1:]
+    if args and args[0] == "--child":
+        sys.exit(_child(args[1], os.environ.get("TRACER_STATS")))
     try:
-        print(translate(sys.argv[1] if len(sys.argv) > 1 else "/repo"))
+        sys.stdout.write(translate(args[0] if args else "/repo"))
     except Refuse as e:
         print("REFUSED:", e)
         sys.exit(1)
